@@ -7,7 +7,7 @@
    All statements are for ALL sizes n, k, c, numbers of factors / blocks / repeats. *)
 From mathcomp Require Import all_ssreflect all_algebra.
 Require Import C04.Model C04.ProofsBridge C04.ProofsTri C04.ProofsChol C04.ProofsStruct C04.ProofsKron
-               C04.ProofsEig C04.ProofsBlock C04.ProofsAlg C04.ProofsCholFactor C04.ProofsSound C04.ProofsSelect C04.ProofsKronTri C04.ProofsEigKron C04.ProofsJitter.
+               C04.ProofsEig C04.ProofsBlock C04.ProofsAlg C04.ProofsCholFactor C04.ProofsSound C04.ProofsSelect C04.ProofsKronTri C04.ProofsEigKron C04.ProofsJitter C04.ProofsFactor.
 Set Implicit Arguments.
 Unset Strict Implicit.
 Unset Printing Implicit Defensive.
@@ -197,6 +197,47 @@ Theorem C04_alg_solve_sound_leaf_left (s : settings) (o : opd F) (B Y : cols F) 
   exists X, [/\ size X = size B, forall j, (j < size B)%N -> solves o (nth [::] X j) (nth [::] B j)
               & Y = left_mul RA k (osize o) L X].
 Proof. exact: alg_solve_sound_leaf_left. Qed.
+
+(* SOLVES ROUTED THROUGH FACTOR OPERATORS.  DCholOf up o = CholLinearOperator(o.cholesky(upper=up), upper=up): its solve is
+   o.cholesky(upper=up)._cholesky_solve(rhs, upper=up) with the factor operator the class of o builds.  For every settings
+   record, EITHER orientation, every leaf base o (dense-like, AddedDiag, Diag, Identity, Chol with any stored orientation,
+   all sizes): a returned value solves the system of o itself, column by column *)
+Theorem C04_alg_solve_sound_cholof (s : settings) up (o : opd F) (B X : cols F) :
+  wf_chol_base o -> alg_solve RA s (DCholOf up o) B None = Some X ->
+  size X = size B /\ forall j, (j < size B)%N -> solves o (nth [::] X j) (nth [::] B j).
+Proof. exact: alg_solve_sound_cholof. Qed.
+
+Theorem C04_alg_solve_sound_cholof_left (s : settings) up (o : opd F) (B Y : cols F) k (L : mat F) :
+  wf_chol_base o -> alg_solve RA s (DCholOf up o) B (Some (k, L)) = Some Y ->
+  exists X, [/\ size X = size B, forall j, (j < size B)%N -> solves o (nth [::] X j) (nth [::] B j)
+              & Y = left_mul RA k (osize o) L X].
+Proof. exact: alg_solve_sound_cholof_left. Qed.
+
+(* ... and for block-diagonal / block-interleaved operators over k such blocks of one class (ANY k, any block size): the
+   factor is block structured and hands `upper` down to every block's factor *)
+Theorem C04_alg_solve_sound_cholof_blocks (s : settings) up inter k (bs : seq (opd F)) (B X : cols F) :
+  wf_blocks k bs -> alg_solve RA s (DCholOf up (blocks_op inter k bs)) B None = Some X ->
+  size X = size B /\
+  forall j, (j < size B)%N -> solves (blocks_op inter k bs) (nth [::] X j) (nth [::] B j).
+Proof. exact: alg_solve_sound_cholof_blocks. Qed.
+
+(* THE ROUTE DOES NOT MATTER: for ANY two settings records s1, s2, either orientation, every leaf operator with an invertible
+   matrix: what solve returns directly (whatever method select_solve s1 picks) and what it returns through the factor operator
+   (under s2) are the same columns *)
+Theorem C04_route_independent_leaf (s1 s2 : settings) up (o : opd F) (B X1 X2 : cols F) :
+  wf_leaf o -> wf_chol_base o -> all (fun b => size b == osize o) B ->
+  mx_of (@rsq F) (@rlt F) (osize o) (osize o) (dense_of RA o) \in unitmx ->
+  alg_solve RA s1 o B None = Some X1 -> alg_solve RA s2 (DCholOf up o) B None = Some X2 ->
+  forall j, (j < size B)%N ->
+    cv_of (@rsq F) (@rlt F) (osize o) (nth [::] X1 j) = cv_of (@rsq F) (@rlt F) (osize o) (nth [::] X2 j).
+Proof. exact: route_independent_leaf. Qed.
+
+Example C04_wf_blocks_sat : wf_blocks 2 [:: DDiag 1 [:: 1 : F]; DDiag 1 [:: 1 : F]].
+Proof. by split=> // -[|[|i]] //= _; split=> // -[|j] //= _; rewrite /Model.vget /= ltr01. Qed.
+
+Example C04_cholof_returns (s : settings) up :
+  exists X, alg_solve RA s (DCholOf up (DDiag 2 [:: 1; 1 : F])) [:: [:: 1; 0]] None = Some X.
+Proof. by eexists; rewrite /alg_solve /select_solve /=; reflexivity. Qed.
 
 (* permutation operators on the structured branch *)
 Theorem C04_alg_solve_sound_perm (s : settings) (p : seq nat) (B X : cols F) :
